@@ -26,8 +26,10 @@ What is modelled, and from where:
   `Generated/MemRepr.lean`.
 * `isEncodeTrivial` / `isDecodeTrivial` — evaluation of the `is_*_trivial` bodies listed in
   `Generated/CodecTrivial.lean`.
-* `slowEncode` / `implEncode`, `implDecode` — what `encode<T>` / `abi_decode<T>` do *with* the fast paths
-  (top-level raw copy when trivial; `Vec<T>` raw copy of the element buffer when `T` is trivial).
+* `slowEncode` / `implEncode`, `slowDecode` / `implDecode` — what `encode<T>` / `abi_decode<T>` do *with* the fast
+  paths (top-level raw copy when trivial; `Vec<T>` raw copy of the element buffer when `T` is trivial) and with the
+  validity checks the translator found. `encode`, `decode` and the `prop…` predicates never consult the generated
+  tables: they are the property's statement; the tables only feed the model of what the code does.
 -/
 namespace SwayVerif.Abi
 open SwayVerif.Generated
@@ -254,10 +256,14 @@ end
 
 abbrev Dec (α : Type) := List UInt8 → Option (α × List UInt8)
 
-/-- `impl AbiDecode for bool` (validity check as found by the translator) -/
+/-- a `bool` is the byte 0 or 1; anything else is not a value (the property's statement, independent of the code) -/
 def decodeBoolByte (b : UInt8) : Option Bool :=
+  if b = 0 then some false else if b = 1 then some true else none
+
+/-- `impl AbiDecode for bool` as found by the translator (validity check present or not) -/
+def implBoolByte (b : UInt8) : Option Bool :=
   match CodecTrivial.boolDecode with
-  | .strict => if b = 0 then some false else if b = 1 then some true else none
+  | .strict => decodeBoolByte b
   | _ => some (b != 0)
 
 def decodeNum (k : Nat) : Dec Val := fun bs =>
@@ -742,6 +748,53 @@ def fromVariantImage : List Ty → Nat → Nat → List UInt8 → Nat → Option
   | _ :: ts, i + 1, tag, bs, u => fromVariantImage ts i tag bs u
 end
 
+mutual
+/-- `T::abi_decode` as implemented: the canonical decoder with the `bool` validity check the translator found in
+`codec.sw` (the generated enum decoder's `_ => __revert(0)` arm is required by `TablesOK`). -/
+def slowDecode : Ty → Dec Val
+  | .u8, bs => decodeNum 1 bs
+  | .u16, bs => decodeNum 2 bs
+  | .u32, bs => decodeNum 4 bs
+  | .u64, bs => decodeNum 8 bs
+  | .u256, bs => decodeNum 32 bs
+  | .b256, bs => decodeNum 32 bs
+  | .bool, bs => match bs with
+      | [] => none
+      | b :: r => match implBoolByte b with
+        | some x => some (.bool x, r)
+        | none => none
+  | .unit, bs => some (.unit, bs)
+  | .strArray n, bs => if bs.length < n then none else some (.bytes (bs.take n), bs.drop n)
+  | .array t n, bs => mapSeq (decodeRep (slowDecode t) n bs)
+  | .tuple ts, bs => mapSeq (slowDecodes ts bs)
+  | .struct ts, bs => mapSeq (slowDecodes ts bs)
+  | .enum ts, bs => match takeNat 8 bs with
+      | some (tag, r) => slowDecodeVariant ts tag tag r
+      | none => none
+  | .vec t, bs => match takeNat 8 bs with
+      | some (len, r) => mapSeq (decodeRep (slowDecode t) len r)
+      | none => none
+  | .bytes, bs => decodeLenPrefixed bs
+  | .string, bs => decodeLenPrefixed bs
+  | .strSlice, bs => decodeLenPrefixed bs
+  | .rawSlice, bs => decodeLenPrefixed bs
+  | .trivialBool, bs => mapSeq (decodeRep (decodeNum 8) 1 bs)
+  | .trivialEnum t, bs => mapSeq (decodeRep (slowDecode t) 1 bs)
+def slowDecodes : List Ty → Dec (List Val)
+  | [], bs => some ([], bs)
+  | t :: ts, bs => match slowDecode t bs with
+    | none => none
+    | some (v, r) => match slowDecodes ts r with
+      | none => none
+      | some (vs, r') => some (v :: vs, r')
+def slowDecodeVariant : List Ty → Nat → Nat → Dec Val
+  | [], _, _, _ => none
+  | t :: _, 0, tag, bs => match slowDecode t bs with
+    | some (p, r) => some (.variant tag p, r)
+    | none => none
+  | _ :: ts, i + 1, tag, bs => slowDecodeVariant ts i tag bs
+end
+
 /-- `abi_decode::<T>(bytes)` as implemented: a raw copy of `__size_of::<T>()` bytes reinterpreted as a `T` when `T`
 is classified trivially decodable (bytes past the end of a short buffer are whatever follows it in memory: `none`),
 the decoder otherwise. (`Vec<T>`'s own element fast path coincides with the decoder for every `T` that the tables
@@ -749,7 +802,7 @@ classify as trivially decodable when `C10_decode` holds; it is not modelled sepa
 def implDecode (t : Ty) (bs : List UInt8) : Option Val :=
   if CodecTrivial.decodeFastPath && isDecodeTrivial t then
     (if bs.length < sizeRT t then none else fromImage t (bs.take (sizeRT t)))
-  else match decode t bs with
+  else match slowDecode t bs with
     | some (v, _) => some v
     | none => none
 
